@@ -302,14 +302,18 @@ package catalog
 //@ ghost field Catalog.gFailed int
 //@ modset requestMod(c) := allfield(HTTPInteraction, Request), allfield(HTTPRequest, HTTPRequestBody), c.gFailed
 //@ func (*Catalog).AddRequest(c, d)
-//@   attr trusted
-//@   requires c != nil
-//@   modifies requestMod(c)
+//@   property C03
+//@   attr assumesafe
+//@   requires c != nil && c.Interactions != nil
+//@   modifies requestMod(c), c.Interactions.data[:]
+//@   ensures[C03,@request-kept] forallp(x, (*HTTPInteraction)(x).Request, imp(old((*HTTPInteraction)(x).Request) != nil, (*HTTPInteraction)(x).Request == old((*HTTPInteraction)(x).Request)))
 //@   ghost c.gFailed := ite(result != nil, old(c.gFailed) + 1, old(c.gFailed))
 //@ func (*Catalog).AddRequestBody(c, s, f, d)
-//@   attr trusted
-//@   requires c != nil
-//@   modifies requestMod(c)
+//@   property C03
+//@   attr assumesafe
+//@   requires c != nil && c.Interactions != nil
+//@   modifies requestMod(c), c.Interactions.data[:]
+//@   ensures[C03,@second-request-body] forallp(x, (*HTTPRequest)(x).HTTPRequestBody, imp(old((*HTTPRequest)(x).HTTPRequestBody) != nil, (*HTTPRequest)(x).HTTPRequestBody == old((*HTTPRequest)(x).HTTPRequestBody)))
 //@   ghost c.gFailed := ite(result != nil, old(c.gFailed) + 1, old(c.gFailed))
 //@ func NewExchangeJSightSchema
 //@   attr trusted
@@ -380,93 +384,123 @@ package catalog
 // The remaining catalog setters, as the per-directive handlers of core see them (C03). Assumed (attr trusted): a setter
 // writes catalog objects only - directives and files keep their values - and gFailed counts its failures; the setters that
 // build the located error themselves locate it at the directive they were given.
+//@ pred catShape(c *Catalog) := c != nil && c.Interactions != nil && c.UserTypes != nil && c.UserEnums != nil && c.Tags != nil && c.Servers != nil
 //@ pred errAtKeyword(e *jerr.JApiError, f *fs.File, b bytes.Index) := e != nil && e.File == f && e.Index == b
 //@ func (*Catalog).AddHTTPMethod(c, d)
 //@   attr trusted
 //@   requires c != nil
 //@   modifies anything
-//@   keeps directive.Directive, fs.File, core.JApiCore
+//@   keeps directive.Directive, fs.File, core.JApiCore, Catalog
 //@   ghost c.gFailed := ite(result != nil, old(c.gFailed) + 1, old(c.gFailed))
 //@   ensures imp(result != nil, result.File == d.keywordCoords.file || (d.BodyCoords.file != nil && result.File == d.BodyCoords.file))
 //@ func (*Catalog).AddDescriptionToHTTPMethod(c, d, text)
-//@   attr trusted
-//@   requires c != nil
+//@   property C03
+//@   attr assumesafe
+//@   requires c != nil && c.Interactions != nil && c.UserTypes != nil && c.UserEnums != nil
 //@   modifies anything
-//@   keeps directive.Directive, fs.File, core.JApiCore
+//@   keeps directive.Directive, fs.File, core.JApiCore, Catalog
 //@   ghost c.gFailed := ite(result != nil, old(c.gFailed) + 1, old(c.gFailed))
+//@   ensures[C03,@second-description] forallp(x, (*HTTPInteraction)(x).Description, imp(old((*HTTPInteraction)(x).Description) != nil, (*HTTPInteraction)(x).Description == old((*HTTPInteraction)(x).Description)))
 //@ func (*Catalog).AddDescriptionToJsonRpcMethod(c, d, text)
-//@   attr trusted
-//@   requires c != nil
+//@   property C03
+//@   attr assumesafe
+//@   requires c != nil && c.Interactions != nil && c.UserTypes != nil && c.UserEnums != nil
 //@   modifies anything
-//@   keeps directive.Directive, fs.File, core.JApiCore
+//@   keeps directive.Directive, fs.File, core.JApiCore, Catalog
 //@   ghost c.gFailed := ite(result != nil, old(c.gFailed) + 1, old(c.gFailed))
+//@   ensures[C03,@second-description] forallp(x, (*JsonRpcInteraction)(x).Description, imp(old((*JsonRpcInteraction)(x).Description) != nil, (*JsonRpcInteraction)(x).Description == old((*JsonRpcInteraction)(x).Description)))
 //@ func (*Catalog).AddQueryToCurrentMethod(c, d, q)
-//@   attr trusted
-//@   requires c != nil
+//@   property C03
+//@   attr assumesafe
+//@   requires c != nil && c.Interactions != nil
 //@   modifies anything
-//@   keeps directive.Directive, fs.File, core.JApiCore
+//@   keeps directive.Directive, fs.File, core.JApiCore, Catalog
 //@   ghost c.gFailed := ite(result != nil, old(c.gFailed) + 1, old(c.gFailed))
+//@   ensures[C03,@second-query] forallp(x, (*HTTPInteraction)(x).Query, imp(old((*HTTPInteraction)(x).Query) != nil, (*HTTPInteraction)(x).Query == old((*HTTPInteraction)(x).Query)))
 //@ func (*Catalog).AddResponse(c, code, annotation, d)
 //@   attr trusted
 //@   requires c != nil
 //@   modifies anything
-//@   keeps directive.Directive, fs.File, core.JApiCore
+//@   keeps directive.Directive, fs.File, core.JApiCore, Catalog
 //@   ghost c.gFailed := ite(result != nil, old(c.gFailed) + 1, old(c.gFailed))
 //@ func (*Catalog).AddResponseBody(c, schemaBytes, bodyFormat, sn, d, tt, rr)
 //@   attr trusted
 //@   requires c != nil
 //@   modifies anything
-//@   keeps directive.Directive, fs.File, core.JApiCore
+//@   keeps directive.Directive, fs.File, core.JApiCore, Catalog
 //@   ghost c.gFailed := ite(result != nil, old(c.gFailed) + 1, old(c.gFailed))
 //@   ensures imp(result != nil, result.File == d.keywordCoords.file || (d.BodyCoords.file != nil && result.File == d.BodyCoords.file))
 //@ func (*Catalog).AddResponseHeaders(c, s, d)
 //@   attr trusted
 //@   requires c != nil
 //@   modifies anything
-//@   keeps directive.Directive, fs.File, core.JApiCore
+//@   keeps directive.Directive, fs.File, core.JApiCore, Catalog
 //@   ghost c.gFailed := ite(result != nil, old(c.gFailed) + 1, old(c.gFailed))
 //@ func (*Catalog).AddType(c, d, tt)
-//@   attr trusted
-//@   requires c != nil
+//@   property C03
+//@   attr assumesafe
+//@   requires c != nil && c.Interactions != nil && c.UserTypes != nil && c.UserEnums != nil && omUserTypesInv(c.UserTypes)
 //@   modifies anything
-//@   keeps directive.Directive, fs.File, core.JApiCore
+//@   keeps directive.Directive, fs.File, core.JApiCore, Catalog
 //@   ghost c.gFailed := ite(result != nil, old(c.gFailed) + 1, old(c.gFailed))
+//@   ensures[C03,@duplicate-type] forall(k, string, imp(old(has(c.UserTypes.data, k)), has(c.UserTypes.data, k) && c.UserTypes.data[k] == old(c.UserTypes.data[k])))
 //@   ensures imp(result != nil, result.File == d.keywordCoords.file || (d.BodyCoords.file != nil && result.File == d.BodyCoords.file))
 //@ func (*Catalog).AddRequestHeaders(c, s, d)
-//@   attr trusted
-//@   requires c != nil
+//@   property C03
+//@   attr assumesafe
+//@   requires c != nil && c.Interactions != nil && c.UserTypes != nil && c.UserEnums != nil
 //@   modifies anything
-//@   keeps directive.Directive, fs.File, core.JApiCore
+//@   keeps directive.Directive, fs.File, core.JApiCore, Catalog
 //@   ghost c.gFailed := ite(result != nil, old(c.gFailed) + 1, old(c.gFailed))
+//@   ensures[C03,@second-request-headers] forallp(x, (*HTTPRequest)(x).HTTPRequestHeaders, imp(old((*HTTPRequest)(x).HTTPRequestHeaders) != nil, (*HTTPRequest)(x).HTTPRequestHeaders == old((*HTTPRequest)(x).HTTPRequestHeaders)))
 //@ func (*Catalog).AddJsonRpcMethod(c, d)
 //@   attr trusted
 //@   requires c != nil
 //@   modifies anything
-//@   keeps directive.Directive, fs.File, core.JApiCore
+//@   keeps directive.Directive, fs.File, core.JApiCore, Catalog
 //@   ghost c.gFailed := ite(result != nil, old(c.gFailed) + 1, old(c.gFailed))
 //@   ensures imp(result != nil, result.File == d.keywordCoords.file || (d.BodyCoords.file != nil && result.File == d.BodyCoords.file))
 //@ func (*Catalog).AddJsonRpcParams(c, s, d)
-//@   attr trusted
-//@   requires c != nil
+//@   property C03
+//@   attr assumesafe
+//@   requires c != nil && c.Interactions != nil && c.UserTypes != nil && c.UserEnums != nil
 //@   modifies anything
-//@   keeps directive.Directive, fs.File, core.JApiCore
+//@   keeps directive.Directive, fs.File, core.JApiCore, Catalog
 //@   ghost c.gFailed := ite(result != nil, old(c.gFailed) + 1, old(c.gFailed))
+//@   ensures[C03,@second-params] forallp(x, (*JsonRpcInteraction)(x).Params, imp(old((*JsonRpcInteraction)(x).Params) != nil, (*JsonRpcInteraction)(x).Params == old((*JsonRpcInteraction)(x).Params)))
 //@ func (*Catalog).AddJsonRpcResult(c, s, d)
-//@   attr trusted
-//@   requires c != nil
+//@   property C03
+//@   attr assumesafe
+//@   requires c != nil && c.Interactions != nil && c.UserTypes != nil && c.UserEnums != nil
 //@   modifies anything
-//@   keeps directive.Directive, fs.File, core.JApiCore
+//@   keeps directive.Directive, fs.File, core.JApiCore, Catalog
 //@   ghost c.gFailed := ite(result != nil, old(c.gFailed) + 1, old(c.gFailed))
+//@   ensures[C03,@second-result] forallp(x, (*JsonRpcInteraction)(x).Result, imp(old((*JsonRpcInteraction)(x).Result) != nil, (*JsonRpcInteraction)(x).Result == old((*JsonRpcInteraction)(x).Result)))
 //@ func (*Catalog).AddOperationID(c, d, id)
-//@   attr trusted
-//@   requires c != nil
+//@   property C03
+//@   attr assumesafe
+//@   requires c != nil && c.Interactions != nil && c.UserTypes != nil && c.UserEnums != nil
 //@   modifies anything
-//@   keeps directive.Directive, fs.File, core.JApiCore
+//@   keeps directive.Directive, fs.File, core.JApiCore, Catalog
 //@   ghost c.gFailed := ite(result != nil, old(c.gFailed) + 1, old(c.gFailed))
+//@   ensures[C03,@second-operation-id] forallp(x, (*HTTPInteraction)(x).OperationId, imp(old((*HTTPInteraction)(x).OperationId) != nil, (*HTTPInteraction)(x).OperationId == old((*HTTPInteraction)(x).OperationId)))
 //@ func (*Catalog).AddEnum(c, d, e)
-//@   attr trusted
-//@   requires c != nil && d != nil
+//@   property C03
+//@   attr assumesafe
+//@   requires c != nil && d != nil && c.Interactions != nil && c.UserTypes != nil && c.UserEnums != nil && omUserRulesInv(c.UserEnums)
 //@   modifies anything
-//@   keeps directive.Directive, fs.File, core.JApiCore
+//@   keeps directive.Directive, fs.File, core.JApiCore, Catalog
 //@   ghost c.gFailed := ite(result != nil, old(c.gFailed) + 1, old(c.gFailed))
+//@   ensures[C03,@duplicate-enum] forall(k, string, imp(old(has(c.UserEnums.data, k)), has(c.UserEnums.data, k) && c.UserEnums.data[k] == old(c.UserEnums.data[k])))
 //@   ensures imp(result != nil, result.File == d.keywordCoords.file || (d.BodyCoords.file != nil && result.File == d.BodyCoords.file))
+// interaction ids are computed from the directive and its ancestors (walk up the Parent chain): assumed pure
+//@ func newHTTPInteractionID(d)
+//@   attr trusted
+//@   modifies nothing
+//@ func newJsonRpcInteractionId(d)
+//@   attr trusted
+//@   modifies nothing
+//@ func (*Catalog).enumDirectiveToUserRule(c, d, e)
+//@   attr trusted
+//@   modifies nothing
+//@   ensures imp(result1 == nil, result0 != nil)
